@@ -106,6 +106,8 @@ def run_property(pid: str, tier: str, seed: int) -> int:
     known = load_known()
     known_ids = {f["id"]: f for f in known.get("findings", [])}
     KNOWN_IDS.update(known_ids)
+    import pyvc.verify as _pv
+    _pv.LISTED_FINDINGS.update(known_ids)
     targets = [t for t, c in reg.items() if pid in contract_props(c) and not c.trusted]
     trusted = [t for t, c in reg.items() if c.trusted]
     timeout_s = 10.0 if tier == "quick" else 60.0
